@@ -1258,3 +1258,5 @@ FAMILIES += [Family("uniform-" + kd, uniform_case(kd), quick=q, thorough=th, bud
 FAMILIES += [Family("second-order", second_order_case, 200, 6000, budget={"quick": 60, "thorough": 900}),
              Family("histories", history_case, 240, 7200, budget={"quick": 60, "thorough": 900}),
              Family("docs-meshes", docs_case, 24, 24, budget={"quick": 60, "thorough": 240})]
+
+SUITE = True   # thorough tier also runs the repository suite with this oracle attached (rv/suite_monitors.py)
